@@ -16,7 +16,9 @@ EXPLANATION = (
     "process is terminated; each member puts exactly one message; a second solve after the assertions changed "
     "- while a loser's answer of the first race arrived late - returns the new verdict; with per-member options "
     "(a member configured to give up, others given by name or with other options) every member process is started "
-    "with the shared options plus its own and the verdict is that of the members that run as configured (R6).  Text-interface "
+    "with the shared options plus its own and the verdict is that of the members that run as configured (R6).  The "
+    "portfolio used incrementally (add_assertion / push / pop / reset / is_sat / solve, 11 sequences): the formula "
+    "handed to every member process is the conjunction of the live assertions, plus the one-shot formula of is_sat (R7).  Text-interface "
     "members: when the solver process ends without answering, the reply read terminates with an error (R5, "
     "interpreted against the reference solver process).")
 NOT_DECIDED = ["the model / value obtained afterwards through the control pipe (the surviving member's side of the pipe "
@@ -47,6 +49,19 @@ def run(ctx):
             else:
                 ctx.finding(rs, "portfolio|%s" % key, "%s: %s" % (name, detail), "pysmt/solvers/portfolio.py")
         ctx.floor(rs, 800)
+
+    if ctx.want("R7"):
+        rs = ctx.rule("R7", "the portfolio as an incremental solver: the members are asked about the live assertions (after push / pop / reset / one-shot queries)")
+        names = {"A1": "assert a|b", "A2": "assert !a", "P": "push", "O": "pop", "R": "reset_assertions", "S": "solve", "Q": "is_sat(c|a)"}
+        for seq, kind, detail in sd.portfolio_stack_results(repo, ctx.tier):
+            tag = " ; ".join(names[x] for x in seq)
+            if kind == "ok":
+                rs.ok({"calls": tag, "result": "every member process receives the conjunction of the live assertions"})
+            elif kind == "unsupported":
+                rs.unrec("%s: %s" % (tag, detail[:160]))
+            else:
+                ctx.finding(rs, "portfolio-stack|%s" % ",".join(seq), "%s: %s" % (tag, detail), "pysmt/solvers/portfolio.py")
+        ctx.floor(rs, 8)
 
     if ctx.want("R5"):
         rs = ctx.rule("R5", "reply reads of a text-interface member terminate when the solver process ends")
